@@ -57,6 +57,7 @@ type Runner struct {
 	curFn    *ssa.Function
 	curSpec  *FuncSpec
 	curName  string
+	recorded map[string]bool // call-history names for which a call was recorded on some path of the function under verification
 	histSigs map[string]*types.Signature // call-history name -> signature of the calls the function under verification contains (typed lastret on paths without the call)
 	paths    int
 	quiet    int // >0: speculative execution (no obligations)
